@@ -1,9 +1,369 @@
-"""C14 (continued): further contracts, written against the conventions of contracts/C14.py.
+"""C14 (continued): the thin wrappers around the proved core (_open_response / _pull_response) and the two remaining
+Iter... operations of the client.
 
-Shared definitions can be imported from the module contracts_C14 (the file contracts/C14.py while it is being loaded)."""
+Shared definitions come from contracts/C14.py (module contracts_C14 while it is being loaded).
+
+Server side (pywbem_mock/_mainprovider.py): every Open... provider method hands the COMPLETE result of its traditional
+operation (a trusted stub returning a ghost list) to _open_response, with the caller's namespace / MaxObjectCount /
+OperationTimeout / ContinueOnError unchanged and the pull type of its DSP0200 continuation; validates before anything is
+registered (the table is untouched on every CIMError exit); returns what _open_response returned.  Every Pull... method
+passes its own kind, the caller's context and MaxObjectCount, and returns what _pull_response returned.  _open_response /
+_pull_response / _validate_pull_operations_enabled are cut at the contracts proved in C14.py (same ensures and raises,
+re-ordered where an assumed postcondition subscripts the table); what the wrappers have to establish are the NAMED
+preconditions of these callee contracts.
+"""
 from pyvc.contract import Contract, Raises, LoopSpec
 from pyvc.values import *   # noqa
+from contracts_C14 import SELF, TABLE, validate_namespace, pull_response, open_response, validate_pull_enabled
 
 CONTRACTS = []
 CLASS_SPECS = {}
 LEMMAS = []
+REFUTED_ON_THE_UNCHANGED_TREE = []
+
+M = 'pywbem_mock/_mainprovider.py::MainProvider.'
+RESP = TupleOf(ListOf('ref'), Str, Str)
+MOC_OK = 'MaxObjectCount is None or MaxObjectCount >= 0'
+UNTOUCHED = ('nothing-registered-nothing-consumed', 'same_except(self.enumeration_contexts, old(self.enumeration_contexts))')
+
+# ---- _validate_open_params: the documented errors of FilterQueryLanguage / FilterQuery / OperationTimeout
+validate_open_params = Contract(
+    M + '_validate_open_params',
+    params={'FilterQueryLanguage': Opt(Str), 'FilterQuery': Opt(Str), 'OperationTimeout': Opt(Int)},
+    consts={'OPEN_MAX_TIMEOUT': Int}, facts=['OPEN_MAX_TIMEOUT >= 0'],
+    ensures=[('query-only-with-language', 'implies(FilterQuery is not None and FilterQuery != "", FilterQueryLanguage is not None and FilterQueryLanguage != "")'),
+             ('only-FQL', "FilterQueryLanguage is None or FilterQueryLanguage == '' or FilterQueryLanguage == 'DMTF:FQL'"),
+             ('timeout-in-range', 'OperationTimeout is None or 0 <= OperationTimeout <= OPEN_MAX_TIMEOUT')],
+    raises={'CIMError': Raises(post=[
+        ('status-code', 'exc.status_code in (CIM_ERR_INVALID_PARAMETER, CIM_ERR_QUERY_LANGUAGE_NOT_SUPPORTED)'),
+        ('unsupported-language-only-for-a-language-other-than-FQL',
+         "implies(exc.status_code == CIM_ERR_QUERY_LANGUAGE_NOT_SUPPORTED, FilterQueryLanguage is not None and FilterQueryLanguage != 'DMTF:FQL')"),
+        ('INVALID_PARAMETER-for-a-query-without-language-or-a-timeout-out-of-range',
+         "implies(FilterQueryLanguage is None or FilterQueryLanguage == '' or FilterQueryLanguage == 'DMTF:FQL', "
+         "exc.status_code == CIM_ERR_INVALID_PARAMETER)"),
+        ('refused-for-a-reason',
+         "(FilterQuery is not None and FilterQuery != '' and (FilterQueryLanguage is None or FilterQueryLanguage == '')) or "
+         "(FilterQueryLanguage is not None and FilterQueryLanguage != '' and FilterQueryLanguage != 'DMTF:FQL') or "
+         "(OperationTimeout is not None and (OperationTimeout < 0 or OperationTimeout > OPEN_MAX_TIMEOUT))")])},
+)
+CONTRACTS.append(validate_open_params)
+
+# ---- callee contracts: what C14.py proves for _pull_response / _open_response (same ensures, same raises), plus the
+#      named preconditions that the wrappers have to establish at the call
+E_DATA = "self.enumeration_contexts[EnumerationContext]['data']"
+
+
+# what a NORMAL return of _pull_response tells about the entry state (not stated in C14.py; proved here, used below)
+PULL_ENTRY = [('only-an-open-context-is-served', 'old(EnumerationContext in self.enumeration_contexts)'),
+              ('only-a-pull-of-the-registered-kind-is-served',
+               "old(self.enumeration_contexts[EnumerationContext]['pull_type']) == req_type")]
+CONTRACTS.append(Contract(
+    pull_response.key, label='entry state of a served pull', params=dict(pull_response.params), consts=dict(pull_response.consts),
+    facts=list(pull_response.facts), requires=list(pull_response.requires), callees=dict(pull_response.callees),
+    ensures=PULL_ENTRY, raises={'CIMError': Raises()}))
+
+
+def first(ensures, *names):
+    """the same postconditions, the named ones first (an assumed postcondition that subscripts the table can only be
+    evaluated once the membership facts are known)"""
+    return [e for n in names for e in ensures if e[0] == n] + [e for e in ensures if e[0] not in names]
+
+
+def pull_response_c(kind):
+    return Contract(
+        pull_response.key, returns_ghost='g_resp', modifies=['self.enumeration_contexts'],
+        requires=[('validated-MaxObjectCount', MOC_OK),
+                  ('the-wrapper-passes-its-own-kind', f"req_type == '{kind}'"),
+                  ('the-callers-context', 'EnumerationContext == caller_EnumerationContext'),
+                  ('the-callers-MaxObjectCount', 'MaxObjectCount == caller_MaxObjectCount'),
+                  ('only-with-pull-operations-enabled', 'not self.disable_pull_operations')],
+        ensures=PULL_ENTRY + first(pull_response.ensures, 'eos-is-TRUE-or-FALSE', 'eos-iff-context-closed'),
+        raises=dict(pull_response.raises),
+        notes='proved in C14.py (MainProvider._pull_response) and above (entry state)')
+
+
+validate_pull_enabled_c = Contract(validate_pull_enabled.key, ensures=list(validate_pull_enabled.ensures),
+                                   raises=dict(validate_pull_enabled.raises), notes='proved in C14.py')
+
+
+def pull_wrapper(kind):
+    return Contract(
+        M + kind, params={'self': SELF, 'EnumerationContext': Str, 'MaxObjectCount': Opt(Int)},
+        requires=[MOC_OK], ghosts={'g_resp': RESP},
+        callees={'_pull_response': pull_response_c(kind), '_validate_pull_operations_enabled': validate_pull_enabled_c},
+        ensures=[('returns-what-_pull_response-returned-unchanged',
+                  'result[0] is g_resp[0] and result[1] == g_resp[1] and result[2] == g_resp[2] and len(result) == 3')]
+        + list(pull_response.ensures)
+        + [('only-with-pull-operations-enabled', 'not self.disable_pull_operations'),
+           ('only-an-open-context-is-served', 'old(EnumerationContext in self.enumeration_contexts)'),
+           ('a-pull-of-the-wrong-kind-is-not-served',
+            f"old(self.enumeration_contexts[EnumerationContext]['pull_type']) == '{kind}'")],
+        raises={'CIMError': Raises(post=[
+            ('status-code', 'exc.status_code in (CIM_ERR_NOT_SUPPORTED, CIM_ERR_INVALID_ENUMERATION_CONTEXT, CIM_ERR_INVALID_NAMESPACE)'),
+            ('NOT_SUPPORTED-iff-disabled', '(exc.status_code == CIM_ERR_NOT_SUPPORTED) == self.disable_pull_operations'),
+            ('unknown-context-refused',
+             'implies(not self.disable_pull_operations and old(EnumerationContext not in self.enumeration_contexts), '
+             'exc.status_code == CIM_ERR_INVALID_ENUMERATION_CONTEXT)'),
+            ('refused-without-consuming',
+             f"implies(old(EnumerationContext in self.enumeration_contexts), EnumerationContext in self.enumeration_contexts and {E_DATA} == old({E_DATA}))"),
+            UNTOUCHED])},
+    )
+
+
+for _kind in ('PullInstancesWithPath', 'PullInstancePaths', 'PullInstances'):
+    CONTRACTS.append(pull_wrapper(_kind))
+
+
+# ---- Open... wrappers.  The traditional operation is a trusted stub that hands back a ghost list (any list: the ghost
+#      is universally quantified at entry) or raises a CIMError, and writes nothing.  The ghost is reachable from the
+#      callee contracts as self._g_trad (a callee contract sees its own parameters and caller_<parameter>, not the
+#      ghosts of the function under contract), and from the postconditions as g_trad (ghost_init: the same list).
+R_DATA = "self.enumeration_contexts[result[2]]['data']"
+R_CTX = 'self.enumeration_contexts[result[2]]'
+SELF_OPEN = Obj('MainProvider', enumeration_contexts=TABLE, disable_pull_operations=Bool, _g_trad=ListOf('ref'))
+
+
+def trad_c(name):
+    return Contract(M + name, returns_ghost='g_trad', trusted=True, raises={'CIMError': Raises()},
+                    requires=[('the-callers-namespace', 'namespace == caller_namespace')],
+                    notes=f'assumed: {name} returns a list (its complete result) or raises a CIMError, and does not '
+                          f'touch the enumeration-context table')
+
+
+def open_response_c(kind):
+    return Contract(
+        open_response.key, returns_ghost='g_resp', modifies=['self.enumeration_contexts', 'objects'],
+        requires=[('validated-MaxObjectCount', MOC_OK),
+                  ('the-complete-result-of-the-traditional-operation-is-handed-over', 'objects is self._g_trad'),
+                  ('the-pull-type-of-the-DSP0200-continuation', f"pull_type == '{kind}'"),
+                  ('the-callers-namespace', 'namespace == caller_namespace'),
+                  ('the-callers-MaxObjectCount', 'MaxObjectCount == caller_MaxObjectCount'),
+                  ('the-callers-OperationTimeout', 'OperationTimeout == caller_OperationTimeout'),
+                  ('the-callers-ContinueOnError', 'ContinueOnError == caller_ContinueOnError'),
+                  ('only-with-pull-operations-enabled', 'not self.disable_pull_operations')],
+        ensures=first(open_response.ensures, 'eos-is-TRUE-or-FALSE', 'context-registered-when-not-eos'),
+        raises=dict(open_response.raises), notes='proved in C14.py (MainProvider._open_response)')
+
+
+validate_open_params_c = Contract(
+    validate_open_params.key, ensures=list(validate_open_params.ensures), raises=dict(validate_open_params.raises),
+    requires=[('the-callers-filter-and-timeout',
+               'FilterQueryLanguage == caller_FilterQueryLanguage and FilterQuery == caller_FilterQuery and '
+               'OperationTimeout == caller_OperationTimeout')],
+    notes='proved above')
+validate_namespace_c = Contract(validate_namespace.key, raises=dict(validate_namespace.raises), trusted=True,
+                                requires=[('the-callers-namespace', 'namespace == caller_namespace')],
+                                notes=validate_namespace.notes)
+# The asserts at the top of every wrapper split the run on None / not None of every optional parameter, so the full
+# product of shapes is out of budget (2**11 * 3 shapes for OpenAssociatorInstances).  Two contracts per wrapper instead:
+#   [open parameters vary]          FilterQueryLanguage, FilterQuery, OperationTimeout, ContinueOnError, MaxObjectCount
+#                                   in all their shapes; the parameters that are only handed to the traditional
+#                                   operation (a trusted stub) are given;
+#   [pass-through parameters vary]  the parameters handed to the traditional operation in all their shapes; the
+#                                   filter / timeout / ContinueOnError parameters omitted (None), MaxObjectCount any.
+OPEN_VARY = {'FilterQueryLanguage': Opt(Str), 'FilterQuery': Opt(Str), 'OperationTimeout': Opt(Int),
+             'ContinueOnError': Opt(Bool), 'MaxObjectCount': Opt(Int)}
+OPEN_OMITTED = {'FilterQueryLanguage': Lit(None), 'FilterQuery': Lit(None), 'OperationTimeout': Lit(None),
+                'ContinueOnError': Lit(None), 'MaxObjectCount': Opt(Int)}
+
+
+def given(params):
+    """every optional pass-through parameter in its 'given' shape (the last alternative of its union)"""
+    return {k: (v.args[-1] if v.tag == 'Union' else v) for k, v in params.items()}
+
+
+def open_posts(kind, n=3):
+    return [
+        ('returns-what-_open_response-returned-unchanged',
+         f'result[0] is g_resp[0] and result[1] == g_resp[1] and result[2] == g_resp[2] and len(result) == {n}'),
+        ('eos-is-TRUE-or-FALSE', "result[1] == 'TRUE' or result[1] == 'FALSE'"),
+        ('context-registered-for-the-DSP0200-continuation-when-not-eos',
+         f"implies(result[1] == 'FALSE', result[2] in self.enumeration_contexts and {R_CTX}['pull_type'] == '{kind}' "
+         f"and {R_CTX}['namespace'] == namespace)"),
+        ('the-complete-traditional-result-is-delivered-or-kept-nothing-lost-nothing-twice',
+         f"result[0] + ([] if result[1] == 'TRUE' else {R_DATA}) == old(g_trad)"),
+        ('at-most-MaxObjectCount', 'implies(MaxObjectCount is not None, len(result[0]) <= MaxObjectCount)'),
+        ('no-context-when-eos', "implies(result[1] == 'TRUE', result[2] == '')"),
+        ('table-invariant-established', f"implies(result[1] == 'FALSE', len({R_DATA}) >= 1)"),
+        ('other-contexts-untouched',
+         "implies(result[1] == 'TRUE', same_except(self.enumeration_contexts, old(self.enumeration_contexts))) and "
+         "implies(result[1] == 'FALSE', same_except(self.enumeration_contexts, old(self.enumeration_contexts), result[2]))"),
+        ('only-with-pull-operations-enabled', 'not self.disable_pull_operations'),
+        ('only-with-valid-filter-and-timeout',
+         "(FilterQueryLanguage is None or FilterQueryLanguage == '' or FilterQueryLanguage == 'DMTF:FQL') and "
+         "implies(FilterQuery is not None and FilterQuery != '', FilterQueryLanguage == 'DMTF:FQL') and "
+         "(OperationTimeout is None or 0 <= OperationTimeout <= OPEN_MAX_TIMEOUT)"),
+    ]
+
+
+OPEN_RAISES = {'CIMError': Raises(post=[
+    UNTOUCHED,
+    ('disabled-means-NOT_SUPPORTED', 'implies(self.disable_pull_operations, exc.status_code == CIM_ERR_NOT_SUPPORTED)')])}
+
+
+def open_wrapper(name, kind, trad, params, label, n=3, callees=None, ensures=(), **kw):
+    return Contract(
+        M + name, params=dict(params, self=SELF_OPEN, namespace=Str), requires=[MOC_OK], label=label,
+        consts={'OPEN_MAX_TIMEOUT': Int}, facts=['OPEN_MAX_TIMEOUT >= 0'],
+        ghosts={'g_resp': RESP}, ghost_init={'g_trad': 'self._g_trad'},
+        callees=dict({'_open_response': open_response_c(kind), '_validate_pull_operations_enabled': validate_pull_enabled_c,
+                      '_validate_open_params': validate_open_params_c, 'validate_namespace': validate_namespace_c,
+                      trad: trad_c(trad)}, **(callees or {})),
+        ensures=open_posts(kind, n) + list(ensures), raises=OPEN_RAISES, max_paths=3000, **kw)
+
+
+def open_wrappers(name, kind, trad, passthrough, **kw):
+    out = [open_wrapper(name, kind, trad, dict(given(passthrough), **OPEN_VARY), 'open parameters vary', **kw)]
+    if any(v.tag == 'Union' for v in passthrough.values()):
+        out.append(open_wrapper(name, kind, trad, dict(passthrough, **OPEN_OMITTED), 'pass-through parameters vary', **kw))
+    return out
+
+
+PROPS = {'IncludeClassOrigin': Opt(Bool), 'PropertyList': Union(NoneT, Str, ListOf('str'))}
+REFS = {'InstanceName': Ref('CIMInstanceName'), 'ResultClass': Opt(Str), 'Role': Opt(Str)}
+ASSOC = dict(REFS, AssocClass=Opt(Str), ResultRole=Opt(Str))
+WITH_PATH, PATHS, NO_PATH = 'PullInstancesWithPath', 'PullInstancePaths', 'PullInstances'
+CONTRACTS += (
+    open_wrappers('OpenEnumerateInstancePaths', PATHS, 'EnumerateInstanceNames', {'ClassName': Str})
+    + open_wrappers('OpenEnumerateInstances', WITH_PATH, 'EnumerateInstances', dict({'ClassName': Str, 'DeepInheritance': Opt(Bool)}, **PROPS))
+    + open_wrappers('OpenReferenceInstancePaths', PATHS, 'ReferenceNames', REFS)
+    + open_wrappers('OpenReferenceInstances', WITH_PATH, 'References', dict(REFS, **PROPS))
+    + open_wrappers('OpenAssociatorInstancePaths', PATHS, 'AssociatorNames', ASSOC)
+    + open_wrappers('OpenAssociatorInstances', WITH_PATH, 'Associators', dict(ASSOC, **PROPS)))
+
+# ---- OpenQueryInstances: DSP0200 continuation is PullInstances; the result carries the query result class as 4th item
+get_class_c = Contract('pywbem_mock/_baseprovider.py::BaseProvider.get_class', returns=Ref('CIMClass'), trusted=True,
+                       raises={'CIMError': Raises()},
+                       requires=[('the-callers-namespace', 'namespace == caller_namespace')],
+                       notes='assumed: returns a CIMClass or raises a CIMError, and does not touch the enumeration-context table')
+QUERY = dict(kind=NO_PATH, trad='ExecQuery', n=4, callees={'get_class': get_class_c},
+             ensures=[('query-result-class-iff-requested',
+                       'isinstance(result[3], CIMClass) if ReturnQueryResultClass is True else result[3] is None')])
+CONTRACTS.append(open_wrapper(
+    'OpenQueryInstances', params=dict(OPEN_VARY, FilterQuery=Str, ReturnQueryResultClass=Opt(Bool)),
+    label='FilterQuery given (required by DSP0200)', **QUERY))
+REFUTED_ON_THE_UNCHANGED_TREE.append(open_wrapper(
+    'OpenQueryInstances', params=dict(OPEN_VARY, ReturnQueryResultClass=Opt(Bool)), label='FilterQuery may be None', **QUERY,
+    notes='FilterQuery=None (accepted by WBEMConnection.OpenQueryInstances and by the asserts of the provider method) with '
+          "FilterQueryLanguage='DMTF:FQL' and ReturnQueryResultClass=True: re.search(..., None) raises a raw TypeError instead "
+          'of a CIMError (CIM_ERR_INVALID_PARAMETER: a required parameter is missing); reachable only with a user-defined '
+          'ExecQuery (the built-in one always raises CIM_ERR_NOT_SUPPORTED first)'))
+
+# ---- the two remaining Iter... operations of the CLIENT, in the style of contracts/C15.py: the Open/Pull/Close/traditional
+#      operations are callee contracts that hand objects over through the ghost sequence sent() and track the ghost flag
+#      'an enumeration is open on the server' (self._g_open); _g_err records an error of an established pull session.
+K = 'pywbem/_cim_operations.py::WBEMConnection.'
+INSTS = ListOf(('ref', 'CIMInstance'))
+CLASS_SPECS.update({'CIMInstanceName': {'namespace': Opt(Str), 'host': Opt(Str)},
+                    'CIMInstance': {'path': Ref('CIMInstanceName')}})
+
+
+def client_callees(flag, open_name, pull_name, trad_name, result_sort, trad_raises=('CIMError', 'ConnectionError')):
+    SENT = 'sent() == old(sent()) + result.instances'
+    ERR = ('established-session-error-recorded', f'self._g_err == (old(self._g_err) or old(self.{flag}) is True)')
+    open_c = Contract(K + open_name, returns=result_sort, modifies=['self._g_open', 'self._g_err', '$sent'],
+                      requires=['not self._g_open'],
+                      ensures=[('open-iff-not-eos', 'self._g_open == (not result.eos)'), ('hands-over', SENT),
+                               ('context-iff-not-eos', 'result.eos == (result.context is None)'),
+                               ('no-error', 'self._g_err == old(self._g_err)')],
+                      raises={'CIMError': Raises(post=[('nothing-opened', 'not self._g_open and sent() == old(sent())'), ERR]),
+                              'ConnectionError': Raises(post=[('nothing-opened', 'not self._g_open and sent() == old(sent())')])},
+                      trusted=True, notes='the server side of Open... is proved above; assumed here for the client stub')
+    pull_c = Contract(K + pull_name, returns=result_sort, modifies=['self._g_open', 'self._g_err', '$sent'],
+                      requires=['self._g_open'],
+                      ensures=[('open-iff-not-eos', 'self._g_open == (not result.eos)'), ('hands-over', SENT),
+                               ('context-iff-not-eos', 'result.eos == (result.context is None)'),
+                               ('no-error', 'self._g_err == old(self._g_err)')],
+                      raises={'CIMError': Raises(post=[('still-open', 'self._g_open and sent() == old(sent())'), ERR]),
+                              'ConnectionError': Raises(post=[('still-open', 'self._g_open and sent() == old(sent())')])},
+                      trusted=True, notes='a failing pull leaves the enumeration open (it must still be closed)')
+    close_c = Contract(K + 'CloseEnumeration', modifies=['self._g_open'], requires=['self._g_open'],
+                       ensures=[('closed', 'not self._g_open')],
+                       raises={'CIMError': Raises(post=[('closed-by-server', 'not self._g_open')])}, trusted=True)
+    trad_c_ = Contract(K + trad_name, returns=INSTS, modifies=['$sent'],
+                       ensures=[('hands-over', 'sent() == old(sent()) + result')],
+                       raises={k: Raises() for k in trad_raises}, trusted=True)
+    return {open_name: open_c, pull_name: pull_c, 'CloseEnumeration': close_c, trad_name: trad_c_}
+
+
+def client_conn(flag):
+    return Obj('WBEMConnection', **{flag: Opt(Bool)}, _use_pull_operations=Opt(Bool), _g_open=Bool, _g_err=Bool, host=Str,
+               default_namespace=Str, conn_id=Opt(Str))
+
+
+CLIENT_REQUIRES = ['not self._g_open', 'not self._g_err', 'MaxObjectCount > 0', 'OperationTimeout is None or OperationTimeout >= 0']
+EI_FLAG = '_use_enum_inst_pull_operations'
+EI_RESULT = Obj('pull_result', instances=INSTS, eos=Bool, context=Opt(TupleOf(Str, Str)))
+# the batch that is being yielded object by object: what was yielded so far plus the rest of the batch is what was delivered
+BATCH = [('yielded-plus-rest-of-the-batch-equals-delivered', 'yielded() + pull_result.instances[_i:] == sent()'),
+         ('open-iff-last-not-eos', 'self._g_open == (not pull_result.eos)'),
+         ('flag-learned', f'self.{EI_FLAG} is True'), ('no-error-so-far', 'not self._g_err')]
+CONTRACTS.append(Contract(
+    K + 'IterEnumerateInstances',
+    params={'self': client_conn(EI_FLAG), 'ClassName': Str, 'namespace': Opt(Str), 'LocalOnly': Opt(Bool), 'DeepInheritance': Opt(Bool),
+            'IncludeQualifiers': Opt(Bool), 'IncludeClassOrigin': Opt(Bool), 'PropertyList': Lit(None),
+            'FilterQueryLanguage': Opt(Str), 'FilterQuery': Opt(Str), 'OperationTimeout': Opt(Int),
+            'ContinueOnError': Opt(Bool), 'MaxObjectCount': Int},
+    requires=CLIENT_REQUIRES,
+    callees=client_callees(EI_FLAG, 'OpenEnumerateInstances', 'PullInstancesWithPath', 'EnumerateInstances', EI_RESULT),
+    loops={1: LoopSpec(target='inst', modifies=['$yielded'], types={'inst': Ref('CIMInstance')}, invariant=BATCH),
+           2: LoopSpec(modifies=['self._g_open', 'self._g_err', '$sent', '$yielded'],
+                       types={'pull_result': EI_RESULT, 'inst': Ref('CIMInstance')},
+                       invariant=[('yielded-equals-delivered', 'yielded() == sent()'),
+                                  ('open-iff-last-not-eos', 'self._g_open == (not pull_result.eos)'),
+                                  ('flag-learned', f'self.{EI_FLAG} is True'), ('no-error-so-far', 'not self._g_err')]),
+           3: LoopSpec(target='inst', modifies=['$yielded'], types={'inst': Ref('CIMInstance')}, invariant=BATCH),
+           4: LoopSpec(target='inst', modifies=['$fields'], types={'inst': Ref('CIMInstance')}),
+           5: LoopSpec(target='inst', modifies=['$yielded'], types={'inst': Ref('CIMInstance')},
+                       invariant=[('yielded-plus-rest-equals-delivered', 'yielded() + enum_rslt[_i:] == sent()')])},
+    ensures=[('exhausted-yields-exactly-what-was-delivered-in-order', 'yielded() == sent()'),
+             ('no-enumeration-left-open', 'not self._g_open'),
+             ('error-of-an-established-pull-session-is-never-swallowed', 'not self._g_err'),
+             ('flag-only-learned', f'old(self.{EI_FLAG}) is None or self.{EI_FLAG} == old(self.{EI_FLAG})')],
+    raises={
+        'GeneratorExit': Raises(post=[('closed-early-leaves-no-enumeration-open', 'not self._g_open'),
+                                      ('yielded-is-a-prefix-of-delivered', 'len(yielded()) <= len(sent())')]),
+        'CIMError': Raises(post=[('error-leaves-no-enumeration-open', 'not self._g_open')]),
+        'ConnectionError': Raises(post=[('error-leaves-no-enumeration-open', 'not self._g_open')]),
+        'ValueError': Raises(post=[('only-on-traditional-fallback-with-pull-only-arguments',
+                                    f'self.{EI_FLAG} is False and (FilterQuery is not None or FilterQueryLanguage is not None '
+                                    'or ContinueOnError is not None)'),
+                                   ('nothing-open', 'not self._g_open')]),
+    },
+    max_paths=3000,
+))
+
+# IterQueryInstances is NOT a generator: it drains the whole session into one list and returns it wrapped in an
+# IterQueryInstancesReturn object.  The C15 pattern carries over with `result.instances` in the place of yielded()
+# (and without the GeneratorExit exit: there is no consumer that could stop early).
+Q_FLAG = '_use_query_pull_operations'
+Q_RESULT = Obj('pull_result', instances=INSTS, eos=Bool, context=Opt(TupleOf(Str, Str)), query_result_class=Opt(Ref('CIMClass')))
+CONTRACTS.append(Contract(
+    K + 'IterQueryInstances',
+    params={'self': client_conn(Q_FLAG), 'FilterQueryLanguage': Str, 'FilterQuery': Str, 'namespace': Opt(Str),
+            'ReturnQueryResultClass': Opt(Bool), 'OperationTimeout': Opt(Int), 'ContinueOnError': Opt(Bool), 'MaxObjectCount': Int},
+    requires=CLIENT_REQUIRES,
+    callees=client_callees(Q_FLAG, 'OpenQueryInstances', 'PullInstances', 'ExecQuery', Q_RESULT),
+    loops={1: LoopSpec(modifies=['self._g_open', 'self._g_err', '$sent', '_instances'], types={'pull_result': Q_RESULT},
+                       invariant=[('collected-equals-delivered', '_instances == sent()'),
+                                  ('open-iff-last-not-eos', 'self._g_open == (not pull_result.eos)'),
+                                  ('flag-learned', f'self.{Q_FLAG} is True'), ('no-error-so-far', 'not self._g_err')])},
+    ensures=[('returns-exactly-what-was-delivered-in-order', 'result.instances == sent()'),
+             ('no-enumeration-left-open', 'not self._g_open'),
+             ('error-of-an-established-pull-session-is-never-swallowed', 'not self._g_err'),
+             ('flag-only-learned', f'old(self.{Q_FLAG}) is None or self.{Q_FLAG} == old(self.{Q_FLAG})'),
+             ('no-query-result-class-unless-requested', 'implies(not ReturnQueryResultClass, result.query_result_class is None)')],
+    raises={
+        'CIMError': Raises(post=[('error-leaves-no-enumeration-open', 'not self._g_open')]),
+        'ConnectionError': Raises(post=[('error-leaves-no-enumeration-open', 'not self._g_open')]),
+        'ValueError': Raises(post=[('only-on-traditional-fallback-with-pull-only-arguments',
+                                    f'self.{Q_FLAG} is False and (ReturnQueryResultClass is not None or ContinueOnError is not None)'),
+                                   ('nothing-open', 'not self._g_open')]),
+    },
+    max_paths=3000,
+))
+
+# ---- the discrepancies are not loaded; to see them refuted:  C14_OPS_SHOW_REFUTED=1 ./check C14 --only <name> -v
+import os as _os
+if _os.environ.get('C14_OPS_SHOW_REFUTED'):
+    CONTRACTS = list(REFUTED_ON_THE_UNCHANGED_TREE)
